@@ -40,6 +40,8 @@ structure FolderT where
   files : List FileT
   /-- `folder.deleted_files` -/
   deletedFiles : List FileT
+  /-- `folder.uuid` -/
+  uid : Option Nat := none
   deriving Repr
 
 structure NicT where
@@ -100,7 +102,7 @@ def describeFile (f : FileT) : String × FileState := (f.name, { health := f.hea
 
 /-- `Folder.describe_state`: only live files appear under `"files"` (deleted ones go to `"deleted_files"`, which no observation reads) -/
 def describeFolder (f : FolderT) : String × FolderState :=
-  (f.name, { health := f.health, visible := f.visible, scanned := f.scanned, files := f.files.map describeFile })
+  (f.name, { health := f.health, visible := f.visible, scanned := f.scanned, files := f.files.map describeFile, uid := f.uid })
 
 /-- `NetworkInterface.describe_state`: the `nmne` entry is present iff the interface captures -/
 def describeNic (n : NicT) : Nat × NicState :=
